@@ -8,7 +8,8 @@ INFO = dict(
     "scheduled read/write against ring buffers of the automatically computed sizes, of user sizes (+0..3) and extra padding, and from late starting partitions, by the Lean replay Rex.Sched.replayOk; sensitivity: the replay "
     "must fail when the largest buffer is shrunk by one where the bound is tight (counted, not required); dynamic: rollouts with auto / user sizes / padding from step 0 and from a late step, every window payload compared "
     "with the producer's recorded output (or its default output). Non-trivial: rate ratio != 1 and window >= 2, or the equal-rate family",
-    trusted=["Lean: ring safety for the extracted slot kernels seq % size (Props/C08.lean); the replay is the statement itself, executed",
+    trusted=["Lean: ring safety for the extracted slot kernels seq % size; refinement of the replay's ring to 'the message with that sequence number' for every history of consecutive writes, any size, any first "
+             "sequence number (C08_ring_reads_live_message / _stale_not_read / _default_until_full, C08_replay_read_live; hypothesis 'consecutive writes' decided per instance by the driver)",
              "get_buffer_sizes is validated per instance, not proved in general"],
     assumptions=["when execution starts at partition k > 0 a producer that has not run since the start provides its default output (documented for only_init)"],
 )
@@ -54,6 +55,12 @@ def run(ctx):
         if must and not o["ok"]:
             res.fail("ring_overwrite", f"seed={t['args']['seed']} ({t['args']['spec_kind']}) {it['mode']} prune={it['prune']} episode {it['episode']}: replaying the schedule against buffers of sizes {sz} ({label}, start {start}) "
                      f"reads a slot that does not hold the scheduled message (computed sizes {it['raw_sizes']})", dict(task=t, spec=r["spec"], mode=it["mode"], prune=it["prune"], episode=it["episode"], sizes=sz, label=label))
+        if must and "consecutive" in o:
+            # hypothesis of theorem C08_replay_read_live, decided by the model on this instance
+            res.count("consecutive_writes_checked")
+            if not o["consecutive"]:
+                res.fail("write_order", f"seed={t['args']['seed']} ({t['args']['spec_kind']}) {it['mode']} prune={it['prune']} episode {it['episode']} (start {start}): a node does not write consecutive sequence numbers "
+                         f"into its output buffer, so a ring of any size can hold a message other than the scheduled one", dict(task=t, spec=r["spec"], mode=it["mode"], prune=it["prune"], episode=it["episode"], label=label))
         if not must:
             res.count("tight_bound_confirmed" if not o["ok"] else "bound_has_slack")
         feats = set(r["feats"])
